@@ -954,6 +954,11 @@ func (m *Machine) step() {
 				panic(pathEnd{"alloc"})
 			}
 		}
+		if cp.IsC && cp.C > (8<<20)/esz && cp.C <= (1<<40)/esz {
+			// a concrete make() above 8 MiB (the size was case split from an input field): the same finding
+			m.reportSite("alloc", m.where(), m.site(), "make() whose size (above 8 MiB) is controlled by the input", m.stackNames())
+			panic(pathEnd{"alloc"})
+		}
 		m.ghostAlloc(Bin("bvmul", cp, BV(64, esz)))
 		s := Slice{Off: BV(64, 0), Len: ln, Cap: cp}
 		if isByte(et) {
